@@ -38,12 +38,31 @@ STD_NAMES = ["zlib", "gzip", "bz2", "lzma", "xz", "lz4"]
 
 # ------------------------------------------------------------------ running the implementation
 def run_impl_cases(cases, timeout=1500):
-    rc, out, err = common.run_impl("c03_impl.py", input_text="\n".join(json.dumps(c) for c in cases) + "\n",
-                                   timeout=timeout)
-    lines = [json.loads(l) for l in out.splitlines() if l.strip()]
-    if len(lines) != len(cases):
-        raise RuntimeError("c03_impl produced %d results for %d cases: %s" % (len(lines), len(cases), err[-2000:]))
-    return lines
+    """one child interpreter for the batch.  If the child dies (crash, kill) the case it died on gets that as its
+    outcome and the rest of the batch is run in a fresh child: a dead child is never the verdict of the run."""
+    results = []
+    rest = list(cases)
+    while rest:
+        try:
+            rc, out, err = common.run_impl("c03_impl.py", input_text="\n".join(json.dumps(c) for c in rest) + "\n",
+                                           timeout=timeout)
+        except Exception as e:  # noqa  (timeout of the whole batch)
+            rc, out, err = -1, "", "%s: %s" % (type(e).__name__, e)
+        lines = []
+        for l in out.splitlines():
+            if l.strip():
+                try:
+                    lines.append(json.loads(l))
+                except ValueError:
+                    break
+        lines = lines[:len(rest)]
+        results.extend(lines)
+        if len(lines) == len(rest):
+            break
+        results.append({"harness_error": "the child interpreter died on this case (exit status %s)" % rc,
+                        "tb": err[-600:]})
+        rest = rest[len(lines) + 1:]
+    return results
 
 
 def run_parallel(cases, workers=None):
@@ -365,7 +384,7 @@ def gen_roundtrip(rng, n, k, big):
     avail = [e["name"] for e in k["registry"] if e["avail"]]
     exts = [e["ext"] for e in k["registry"] if e["avail"]]
     cases = []
-    sizes = ["small"] * 6 + ["8k"] * 3 + ["64k"] * 2 + (["1m"] if big else [])
+    sizes = ["tiny"] * 2 + ["small"] * 6 + ["8k"] * 3 + ["64k"] * 2 + (["1m"] if big else [])
     for i in range(n):
         size = rng.choice(sizes)
         proto = rng.choice([0, 1, 2, 3, 4, 5, None])
@@ -402,7 +421,26 @@ def gen_roundtrip(rng, n, k, big):
     return cases
 
 
-CARRIERS = ["tempfile", "fdopen", "fd_open", "pipe", "spooled_mem", "spooled_disk", "noname", "bytesname"]
+CARRIERS = ["tempfile", "fdopen", "fd_open", "pipe", "spooled_mem", "spooled_disk", "noname", "bytesname", "unbuffered",
+            "bytesio"]
+N_TINY = 13
+
+
+def gen_tiny(k):
+    """pickles of 2..12 bytes (None, True, False, (), 0, 1, "", b"", [], {}, ...) are shorter than the longest magic
+    number: every tiny object x every protocol x every carrier without peek() (and two with), stored uncompressed,
+    plus every compressor once"""
+    cases = []
+    for t in range(N_TINY):
+        for proto in (0, 1, 2, 3, 4, 5):
+            for car in ("bytesio", "noname", "unbuffered", "spooled_mem", "tempfile", "pipe"):
+                cases.append({"mode": "roundtrip", "seed": 0, "size": {"tiny": t}, "proto": proto,
+                              "form": {"t": "int", "v": 0}, "carrier": car})
+        for e in k["registry"]:
+            if e["avail"]:
+                cases.append({"mode": "roundtrip", "seed": 0, "size": {"tiny": t}, "proto": None,
+                              "form": {"t": "str", "v": e["name"]}, "carrier": "bytesio"})
+    return cases
 
 
 def gen_carriers(rng, n, k):
@@ -421,7 +459,7 @@ def gen_carriers(rng, n, k):
             form = {"t": "tuple", "v": [rng.choice(avail), rng.choice([None, 1, 2, 6])]}
         else:
             form = {"t": rng.choice(["true", "false"])}
-        base = {"mode": "roundtrip", "seed": rng.randrange(10 ** 9), "size": rng.choice(["small", "small", "8k", "64k"]),
+        base = {"mode": "roundtrip", "seed": rng.randrange(10 ** 9), "size": rng.choice(["tiny", "small", "small", "8k", "64k"]),
                 "proto": rng.choice([0, 1, 2, 3, 4, 5, None]), "form": form}
         for car in CARRIERS:
             cases.append(dict(base, carrier=car))
@@ -436,13 +474,24 @@ def judge_roundtrip(c, r):
     bad = stream_state_failure(c, r)
     if bad:
         return bad
+    what = "load(dump(%s, protocol=%s, compress=%s) via %s)" % (
+        r.get("obj_repr", "x"), c.get("proto"), describe_form(c["form"]), c.get("carrier") or c["target"]["k"])
     if "dump_raise" in r:
-        return "dump raised " + r["dump_raise"]
+        return what + ": dump raised " + r["dump_raise"]
     if "load_raise" in r:
-        return "load raised " + r["load_raise"]
+        return what + " raised " + r["load_raise"]
     if r.get("diff"):
-        return "load(dump(x)) differs from x: " + r["diff"]
+        return what + " differs from x: " + r["diff"]
     return None
+
+
+def describe_form(f):
+    t = f["t"]
+    if t in ("true", "false", "none"):
+        return {"true": "True", "false": "False", "none": "None"}[t]
+    if t in ("int", "str"):
+        return repr(f["v"])
+    return repr(tuple(f["v"])) if t == "tuple" else "tuple of length %d" % f["n"]
 
 
 # ------------------------------------------------------------------ load(): the dispatch matrix (shared with C19)
@@ -481,7 +530,9 @@ def load_matrix_check(ctx, mat_cases, mat_res, k, payload_kind):
     exprs, meta = [], []
     for c, r in zip(mat_cases, mat_res):
         if "harness_error" in r:
-            raise RuntimeError("loadmatrix failed: " + r["harness_error"] + r.get("tb", ""))
+            fails.append(("the load() matrix for compress=%r could not be run: %s %s" % (c["form"], r["harness_error"],
+                                                                                     r.get("tb", "")[-300:]), c, r))
+            continue
         exp_codec = documented(c["form"] if isinstance(c["form"], dict) else form_of(c["form"]), {"k": "path", "name": "f.bin"}, k)
         codec = "plain" if exp_codec[0] == "plain" else exp_codec[0]
         for x in r["res"]:
@@ -564,7 +615,7 @@ def search_failing(ctx, k, n=400):
         bad = judge_resolve(c, r, k)
         if bad:
             return bad, c
-    rt = gen_carriers(ctx.rng, 12, k) + gen_roundtrip(ctx.rng, n, k, big=False)
+    rt = gen_tiny(k) + gen_carriers(ctx.rng, 12, k) + gen_roundtrip(ctx.rng, n, k, big=False)
     for c, r in zip(rt, run_parallel(rt)):
         bad = judge_roundtrip(c, r)
         if bad:
@@ -624,9 +675,21 @@ def run(ctx):
             dcases.append({"mode": "detect", "peekable": peek, "heads": hs})
         dcases += [{"mode": "detect2", "peekable": True}, {"mode": "detect2", "peekable": False}]
         dres = run_impl_cases(dcases)
-        for r in dres:
-            if "harness_error" in r:
-                raise RuntimeError("c03_impl detect failed: " + r["harness_error"])
+        for dc, r in zip(dcases, dres):
+            if "harness_error" in r:         # the whole batch could not be run: reported as this case's outcome
+                oracle_fail.append(("_detect_compressor could not be exercised: " + r["harness_error"] + " " + r.get("tb", "")[-300:],
+                                    dc, r))
+                r.setdefault("res", [["raise:harness", -1]] * len(dc.get("heads", [])))
+                r.setdefault("hits", [])
+        # totality: _detect_compressor must give a verdict for EVERY byte string, on every kind of file object
+        for peek, r in ((True, dres[2]), (False, dres[3])):
+            bad_hits = [h for h in r["hits"] if str(h[2]).startswith("raise:")]
+            if bad_hits:
+                b0, b1, nm = bad_hits[0]
+                oracle_fail.append(("_detect_compressor raised %s on a %s file object holding the %d bytes %s (%d of the 65536 "
+                                    "two-byte files)" % (nm[6:], "peekable" if peek else "non-peekable", 2,
+                                                         bytes([b0, b1]).hex(), len(bad_hits)),
+                                    {"mode": "detect", "peekable": peek, "heads": [{"hex": bytes([b0, b1]).hex()}]}, [nm, -1]))
         exprs = ["kind_code (detect %d %s)" % (got, zbytes(h)) for h in heads for got in (k["max_prefix_len"], 64)]
         vals = ctx.coq_eval_lines(REQ, DEFS, exprs + ["sweep2"], name="c03_detect", shard=200)
         n_model += len(vals)
@@ -649,6 +712,11 @@ def run(ctx):
                     disagreements.append({"function": "_detect_compressor", "case": {"head": h.hex(), "peekable": peek,
                                                                                    "pre": pre},
                                           "model": [names, want_pos], "impl": [got_name, pos_after]})
+            for peek, r in ((True, dres[0]), (False, dres[1])):
+                if str(r["res"][i][0]).startswith("raise:") and r["res"][i][0] != "raise:harness":
+                    oracle_fail.append(("_detect_compressor raised %s on a %s file object holding the %d bytes %s"
+                                        % (r["res"][i][0][6:], "peekable" if peek else "non-peekable", len(h), h.hex()),
+                                        {"mode": "detect", "peekable": peek, "heads": [{"hex": h.hex()}]}, r["res"][i]))
             # oracle on detection: a stream that starts with a registered magic is that codec, whatever follows
             for e in k["registry"]:
                 if h.startswith(bytes(e["prefix"])) and dres[0]["res"][i][0] != e["name"]:
@@ -667,7 +735,7 @@ def run(ctx):
     # 4. differential round trip of object graphs
     n_rt = 260 if quick else 3000
     n_car = 30 if quick else 300
-    rt = gen_roundtrip(ctx.rng, n_rt, k, big=True) + gen_carriers(ctx.rng, n_car, k) + lz4_cases()
+    rt = gen_roundtrip(ctx.rng, n_rt, k, big=True) + gen_carriers(ctx.rng, n_car, k) + gen_tiny(k) + lz4_cases()
     rtres = run_parallel(rt)
     kinds = {}
     size_dist, proto_dist, target_dist, codec_dist = {}, {}, {}, {}
@@ -689,7 +757,8 @@ def run(ctx):
             continue
         for kk, v in r.get("kinds", {}).items():
             kinds[kk] = kinds.get(kk, 0) + v
-        size_dist[c["size"]] = size_dist.get(c["size"], 0) + 1
+        skey = "tiny" if isinstance(c["size"], dict) else c["size"]
+        size_dist[skey] = size_dist.get(skey, 0) + 1
         proto_dist[str(c["proto"])] = proto_dist.get(str(c["proto"]), 0) + 1
         tkind = c.get("carrier") or c["target"]["k"]
         target_dist[tkind] = target_dist.get(tkind, 0) + 1
@@ -719,7 +788,22 @@ def run(ctx):
                 disagreements.append({"function": "pickle_startb (hypothesis on CPython's pickler)", "case": c,
                                       "model": "pickle_startb = false", "impl": "payload head " + r["plain_head"]})
     # decide
-    for bad, c, r in oracle_fail[:3]:
+    # report up to 4 failing inputs, one per kind of case first (end-to-end round trips before the unit-level ones)
+    rank = {"roundtrip": 0, "resolve": 1, "loadmatrix": 2, "detect": 3}
+    picked, seen_kinds = [], set()
+    for item in sorted(oracle_fail, key=lambda x: rank.get(x[1].get("mode"), 9)):
+        kind = (item[1].get("mode"), item[1].get("carrier") or (item[1].get("target") or {}).get("k"))
+        if kind not in seen_kinds:
+            seen_kinds.add(kind)
+            picked.append(item)
+    for item in oracle_fail:
+        if len(picked) >= 4:
+            break
+        if item not in picked:
+            picked.append(item)
+    for bad, c, r in picked[:4]:
+        if isinstance(r, dict):
+            r = {kk: vv for kk, vv in r.items() if kk not in ("bytes", "res", "hits")}
         ctx.violation(bad, {"kind": "oracle", "case": c, "impl": r}, True)
     if disagreements and not oracle_fail:
         hit = search_failing(ctx, k, 400 if quick else 3000)
@@ -792,6 +876,8 @@ def replay(ctx, path):
     elif c["mode"] == "detect":
         bad = None
         for h, (name, _) in zip(c["heads"], r["res"]):
+            if str(name).startswith("raise:"):
+                bad = "_detect_compressor raised %s on the bytes %s" % (name[6:], h["hex"])
             for e in k["registry"]:
                 if bytes.fromhex(h["hex"]).startswith(bytes(e["prefix"])) and name != e["name"]:
                     bad = "a stream starting with the %s magic is detected as %s" % (e["name"], name)
